@@ -131,6 +131,8 @@ def to_seq(I, v):
     """Iteration view of v: VSeq, or VTuple/VList for concrete containers."""
     if isinstance(v, (VSeq, VTuple, VList)):
         return v
+    if isinstance(v, VObj) and v.tag in ('bucket', 'symlist'):
+        return v.as_seq()
     if isinstance(v, VSet):
         return VList(v.items)
     if isinstance(v, VDict):
@@ -147,6 +149,10 @@ def to_seq(I, v):
 
 
 def seq_len(I, v):
+    if isinstance(v, VObj) and v.tag in ('bucket', 'symlist'):
+        return VInt(v.as_seq().length)
+    if isinstance(v, VObj) and v.tag == 'symdict':
+        return VInt(v.count)
     if isinstance(v, (VTuple, VList, VSet)):
         return VInt(len(v.items))
     if isinstance(v, VDict):
@@ -281,6 +287,14 @@ def range_len(start, stop, step):
 
 
 def getitem(I, v, k):
+    if isinstance(v, VObj) and v.tag in ('bucket', 'symlist'):
+        return getitem(I, v.as_seq(), k)
+    if isinstance(v, VObj) and v.tag == 'keyval':
+        from . import symcoll
+        ci = concrete_int(k)
+        if ci is None:
+            raise Unsupported('key component access')
+        return symcoll.key_component(v, ci, getattr(v, 'arity', None))
     if isinstance(v, VDict):
         kk = k.concrete() if isinstance(k, VStr) else concrete_int(k)
         if kk is None:
@@ -345,8 +359,9 @@ def setitem(I, obj, k, v):
         if ci is not None and -len(obj.items) <= ci < len(obj.items):
             obj.items[ci] = v
             return
-    if isinstance(obj, VObj) and obj.tag == 'symlist':
-        return symlist_store(I, obj, k, v)
+    if isinstance(obj, VObj) and obj.tag == 'symdict':
+        from . import symcoll
+        return symcoll.store_item(I, obj, k, v)
     if isinstance(obj, VObj):
         si = None
         for kls in obj.pycls.__mro__:
@@ -631,6 +646,10 @@ def call_kind(I, f, args, kwargs):
             return VTuple([]) if ck == 'tuple' else VList([])
         s = to_seq(I, a)
         if isinstance(s, VSeq):
+            n = z3.simplify(s.src_len)
+            if s.pred is None and z3.is_int_value(n) and n.as_long() <= 8:
+                items = [s.elem(z3.IntVal(j)) for j in range(n.as_long())]      # concrete length: materialise
+                return VTuple(items) if ck == 'tuple' else VList(items)
             return s.with_kind(ck)
         return VTuple(s.items) if ck == 'tuple' else VList(list(s.items))
     if ck == 'set':
@@ -820,9 +839,12 @@ def call_method(I, obj, m, args, kwargs):
     if isinstance(obj, (VAny, VInt, VBool)):
         mid = z3.Function('name_id', z3.StringSort(), z3.IntSort())(z3.StringVal(m))
         return VAny(call_m(to_pyval(obj), mid, args_id(args, kwargs)))
-    if isinstance(obj, VObj) and obj.tag in ('symlist', 'symdict', 'symset', 'recorder'):
+    if isinstance(obj, VObj) and obj.tag == 'recorder':
         from . import loops
         return loops.sym_method(I, obj, m, args, kwargs)
+    if isinstance(obj, VObj) and obj.tag in ('symlist', 'symdict', 'symset', 'bucket'):
+        from . import symcoll
+        return symcoll.method(I, obj, m, args, kwargs)
     raise Unsupported(f'method {m} on {obj!r}')
 
 
